@@ -90,3 +90,21 @@ Theorem C15_code_solvers_are_model : forall (S : StarSR) (allnodes : list nat) (
      sol ++ flat_map (fun e => map (fun i => (i, gen_right_complete S (mget B i (fst e)) (snd e))) block) enter).
 Proof. intros; split; [apply gen_solve_left_block_model|apply gen_solve_right_block_model]. Qed.
 Print Assumptions C15_code_solvers_are_model.
+
+(* Least solutions on graphs without cycles: when the weight matrix is nilpotent on the node set (every product of n
+   consecutive edge weights vanishes), each of the systems x = b + A x and x = b + x A has exactly ONE solution, the
+   finite sum over all paths  sum_{m<n} A^m b  (resp. b A^m) -- so what the block solvers return (a solution, by
+   C15_block_solvers) is the least solution and the path sum.  Every commutative star semiring. *)
+From GV.proofs Require NilpotentSolveProofs.
+Theorem C15_acyclic_solutions_are_path_sums : forall (S : StarSR) (nodes : list nat) (A : nat -> nat -> S) (n : nat) (b x : nat -> S),
+  NoDup nodes -> NilpotentSolveProofs.nilp S nodes A n ->
+  ((forall i, In i nodes -> x i = sadd (b i) (bsum nodes (fun k => smul (A i k) (x k)))) ->
+   forall i, In i nodes -> x i = bsum (seq 0 n) (fun m => bsum nodes (fun k => smul (fpow S nodes A m i k) (b k)))) /\
+  ((forall k, In k nodes -> x k = sadd (b k) (bsum nodes (fun i => smul (x i) (A i k)))) ->
+   forall k, In k nodes -> x k = bsum (seq 0 n) (fun m => bsum nodes (fun i => smul (b i) (fpow S nodes A m i k)))).
+Proof.
+  intros S nodes A n b x Hnd Hn. split.
+  - intros Hx i Hi. exact (NilpotentSolveProofs.right_solution_is_path_sum S nodes A n b x Hnd Hn Hx i Hi).
+  - intros Hx k Hk. exact (NilpotentSolveProofs.left_solution_is_path_sum S nodes A n b x Hnd Hn Hx k Hk).
+Qed.
+Print Assumptions C15_acyclic_solutions_are_path_sums.
